@@ -3,6 +3,7 @@ pub mod c02;
 pub mod c03;
 pub mod c04;
 pub mod c05;
+pub mod c06;
 pub mod c08;
 pub mod c09;
 pub mod c10;
@@ -20,6 +21,7 @@ pub fn run(args: &Args, rep: &mut Report) -> Result<(), String> {
 		"C03" => c03::run(args, rep),
 		"C04" => c04::run(args, rep),
 		"C05" => c05::run(args, rep),
+		"C06" => c06::run(args, rep),
 		"C08" => c08::run(args, rep),
 		"C09" => c09::run(args, rep),
 		"C10" => c10::run(args, rep),
@@ -38,6 +40,7 @@ pub fn replay(args: &Args, part: &str, case: &Value) -> Result<Outcome, String> 
 		"C03" => c03::replay(args, part, case),
 		"C04" => c04::replay(args, part, case),
 		"C05" => c05::replay(args, part, case),
+		"C06" => c06::replay(args, part, case),
 		"C08" => c08::replay(args, part, case),
 		"C09" => c09::replay(args, part, case),
 		"C10" => c10::replay(args, part, case),
